@@ -71,6 +71,7 @@ func main() {
 	timeout := fs.Int("timeout", 10, "per-solver timeout in seconds")
 	seed := fs.Int("seed", 0, "solver random seed")
 	verbose := fs.Bool("v", false, "verbose")
+	shuffle := fs.Int("shuffle", 0, "robustness experiment: emit the assumptions of every VC in a pseudo-random order (seed)")
 	groundCheck := fs.String("check", "", "ground: name of the table hypothesis")
 	split := fs.Bool("split", false, "diagnostic: split conjunctive goals into separate obligations")
 	oblRe := fs.String("obl", "", "regexp selecting obligations by name")
@@ -150,6 +151,7 @@ func main() {
 	}
 	pr := &Prover{workdir: wd, timeout: time.Duration(*timeout) * time.Second, tier: *tier, seed: *seed, keep: *keep}
 	p.split = *split
+	shuffleSeed = *shuffle
 	if *oblRe != "" {
 		p.oblRe = regexp.MustCompile(*oblRe)
 	}
@@ -234,13 +236,21 @@ func (p *Program) prove(pr *Prover, re *regexp.Regexp, prop string, verbose bool
 		}
 		prelude := vc.prelude(p.cs.RawSMT)
 		axioms := p.axiomsFor(vc)
+		selected := 0
+		for _, o := range vc.obligs {
+			if o.Kind != "canary" && (prop == "" || p.oblFor(o, fn, prop)) && (p.oblRe == nil || p.oblRe.MatchString(o.Name)) {
+				selected++
+			}
+		}
 		for _, o := range vc.obligs {
 			o := o
 			if o.Kind == "canary" {
-				canaries = append(canaries, func() *Verdict { return pr.discharge(vc, o, prelude, axioms) })
+				if selected > 0 { // vacuity matters only where something is claimed
+					canaries = append(canaries, func() *Verdict { return pr.discharge(vc, o, prelude, axioms) })
+				}
 				continue
 			}
-			if prop != "" && !hasProp(o.Props, prop) {
+			if prop != "" && !p.oblFor(o, fn, prop) {
 				continue
 			}
 			if p.oblRe != nil && !p.oblRe.MatchString(o.Name) {
@@ -580,4 +590,61 @@ func splitConj(g string) []string {
 		out = append(out, body[start:])
 	}
 	return out
+}
+
+// oblFor: does an obligation of fn belong to the check of property prop?  Explicitly tagged obligations belong to
+// their properties.  Structural obligations (tag *: untagged clauses, type invariants, preconditions of untagged
+// requires) belong to the properties the function serves - those named by some clause of its contract - and to the
+// safety (C03) and frame (C13) checks, which cover every function.
+func (p *Program) oblFor(o *Oblig, fn *ssa.Function, prop string) bool {
+	star := false
+	for _, q := range o.Props {
+		if q == prop {
+			return true
+		}
+		if q == "*" {
+			star = true
+		}
+	}
+	if !star || prop == "thorough" {
+		return false
+	}
+	if prop == "C03" || prop == "C13" {
+		return true
+	}
+	c := p.contractOf(fn)
+	if c == nil {
+		return false
+	}
+	has := func(cl *Clause) bool {
+		for _, q := range cl.Props {
+			if q == prop {
+				return true
+			}
+		}
+		return false
+	}
+	for _, cl := range c.Requires {
+		if has(cl) {
+			return true
+		}
+	}
+	for _, cl := range append(append([]*Clause{}, c.Ensures...), c.Defines...) {
+		if has(cl) {
+			return true
+		}
+	}
+	for _, l := range c.Loops {
+		for _, cl := range l.Invs {
+			if has(cl) {
+				return true
+			}
+		}
+	}
+	for _, ca := range c.CallAsserts {
+		if has(ca.Clause) {
+			return true
+		}
+	}
+	return false
 }
